@@ -74,7 +74,8 @@ fn cookie_case(rep: &mut Report, case: u64, rng: &mut Rng, router: &hook::Router
         }
         1 => {
             if rng.bool() {
-                jar.push(("theme".into(), { let v = gen_value(rng); if v.is_empty() { "dark".into() } else { v } }));
+                // an empty value for an Option field is None - wherever the pair stands in the header, the last position included
+                jar.push(("theme".into(), if rng.chance(1, 4) { String::new() } else { let v = gen_value(rng); if v.is_empty() { "dark".into() } else { v } }));
             }
             jar.push(("session".into(), gen_value(rng)));
         }
@@ -107,7 +108,8 @@ fn cookie_case(rep: &mut Report, case: u64, rng: &mut Rng, router: &hook::Router
     let cj = || json!({"case_index": case, "cookie_header": header, "jar": jar});
     let outcome: Result<Result<bool, String>, String> = match target {
         0 => catch(|| from_str::<J1>(&header).map(|j| j == J1 { session: val("session").unwrap(), id: val("id").unwrap().parse().unwrap() }).map_err(|e| e.to_string())),
-        1 => catch(|| from_str::<J2>(&header).map(|j| j == J2 { theme: val("theme"), session: val("session").unwrap() }).map_err(|e| e.to_string())),
+        // an empty value for an Option field may read as None or as Some("") (`theme=` / `theme=""`): the statement does not choose
+        1 => catch(|| from_str::<J2>(&header).map(|j| j == J2 { theme: val("theme"), session: val("session").unwrap() } || (val("theme").as_deref() == Some("") && j == J2 { theme: None, session: val("session").unwrap() })).map_err(|e| e.to_string())),
         _ => catch(|| from_str::<J3>(&header).map(|j| j == J3 { ga: Cow::Owned(val("_ga").unwrap()), abc: val("a.b-c").unwrap(), tok: val("X!tok") }).map_err(|e| e.to_string())),
     };
     let eqclass = if jar.iter().any(|(_, v)| v.contains('=')) { "value-with-equals" } else { "other" };
@@ -116,6 +118,24 @@ fn cookie_case(rep: &mut Report, case: u64, rng: &mut Rng, router: &hook::Router
         Ok(Ok(false)) => rep.violation("C11/typed-decoding-differs", &format!("Cookie: {header} decoded to other values than the jar"), cj()),
         Ok(Err(e)) => rep.violation(&format!("C11/typed-decoding-rejected:{eqclass}"), &format!("Cookie: {header} rejected: {e}"), cj()),
         Err(p) => rep.violation(&format!("C11/panic@{}", crate::report::panic_site(&p)), &format!("serde_cookie panicked on {header:?}: {p}"), cj()),
+    }
+    // ... but whichever it is, it is a function of the pair, not of where the pair stands: the same pairs with the Option field's pair
+    // first and last must decode to the same value
+    if target == 1 && val("theme").as_deref() == Some("") {
+        rep.eval();
+        rep.count("order_independence_checked_for_an_empty_option_value");
+        let arrange = |last: bool| -> String {
+            let mut w: Vec<&(String, String)> = wire.iter().filter(|(n, _)| n != "theme").collect();
+            let t = wire.iter().find(|(n, _)| n == "theme").unwrap();
+            if last { w.push(t) } else { w.insert(0, t) }
+            w.iter().map(|(n, v)| format!("{n}={v}")).collect::<Vec<_>>().join("; ")
+        };
+        let (h_first, h_last) = (arrange(false), arrange(true));
+        let a = catch(|| from_str::<J2>(&h_first).map_err(|e| e.to_string()));
+        let b = catch(|| from_str::<J2>(&h_last).map_err(|e| e.to_string()));
+        if a != b {
+            rep.violation("C11/typed-decoding-depends-on-order", &format!("{h_first:?} -> {a:?} but {h_last:?} -> {b:?}"), cj());
+        }
     }
     // the request's cookie iterator: names and wire values, in order
     rep.eval();
